@@ -67,3 +67,28 @@ def run_generic(ctx, relpaths: List[str], prefix: str = "X") -> None:
                           f"`{src(z)}` pairs children up to the shorter list; no length comparison dominates it", "dominated by a length comparison")
 
     ctx.guarded(f"{prefix}4", x4)
+
+    def x5():
+        # a non-empty tuple display in a boolean position is constantly true: `if not (a and b,): continue` never continues.  Reported as a NOTE (dead guard): whether
+        # the dead guard matters for a property is decided by that property's own rules.
+        n = 0
+        for rel in relpaths:
+            m = ctx.repo.module(rel, f"{prefix}5")
+            for node in ast.walk(m.tree):
+                tests = []
+                if isinstance(node, (ast.If, ast.While, ast.IfExp, ast.Assert)):
+                    tests.append(node.test)
+                elif isinstance(node, ast.UnaryOp) and isinstance(node.op, ast.Not):
+                    tests.append(node.operand)
+                elif isinstance(node, ast.BoolOp):
+                    tests.extend(node.values)
+                elif isinstance(node, ast.comprehension):
+                    tests.extend(node.ifs)
+                for t in tests:
+                    n += 1
+                    if isinstance(t, ast.Tuple) and t.elts:
+                        ctx.note(f"{prefix}5-tuple-condition", f"{rel}:{_qual(t)}", " ".join(src(t).split())[:60], site(t),
+                                 "a non-empty tuple is always true: the guard built from it is dead (trailing comma?)")
+        ctx.inventory["generic_boolean_positions"] = n
+
+    ctx.guarded(f"{prefix}5", x5)
